@@ -10,10 +10,10 @@ import (
 type logical func(iterator, string, interface{}, interface{}) bool
 
 var logicalFuncs = [][]logical{
-	{cmpBooleanBoolean, nil, nil, nil},
-	{nil, cmpNumericNumeric, cmpNumericString, cmpNumericNodeSet},
-	{nil, cmpStringNumeric, cmpStringString, cmpStringNodeSet},
-	{nil, cmpNodeSetNumeric, cmpNodeSetString, cmpNodeSetNodeSet},
+	{cmpBooleanBoolean, cmpBooleanAny, cmpBooleanAny, cmpBooleanAny},
+	{cmpBooleanAny, cmpNumericNumeric, cmpNumericString, cmpNumericNodeSet},
+	{cmpBooleanAny, cmpStringNumeric, cmpStringString, cmpStringNodeSet},
+	{cmpBooleanAny, cmpNodeSetNumeric, cmpNodeSetString, cmpNodeSetNodeSet},
 }
 
 // stringToNumber converts a string to a number the way the XPath number()
@@ -70,6 +70,18 @@ func cmpBooleanBooleanF(op string, a, b bool) bool {
 		return a || b
 	case "and":
 		return a && b
+	case "=":
+		return a == b
+	case "!=":
+		return a != b
+	case ">":
+		return a && !b
+	case "<":
+		return !a && b
+	case ">=":
+		return a || !b
+	case "<=":
+		return !a || b
 	}
 	return false
 }
@@ -190,6 +202,30 @@ func cmpBooleanBoolean(t iterator, op string, m, n interface{}) bool {
 	a := m.(bool)
 	b := n.(bool)
 	return cmpBooleanBooleanF(op, a, b)
+}
+
+// cmpBooleanAny compares two operands of which exactly one is a boolean
+// (XPath 1.0, 3.4): for = and != the other one is converted to a boolean; for
+// the relational operators both are converted to numbers, a node-set by way
+// of its boolean value.
+func cmpBooleanAny(t iterator, op string, m, n interface{}) bool {
+	switch op {
+	case "=", "!=":
+		return cmpBooleanBooleanF(op, asBool(t, m), asBool(t, n))
+	}
+	num := func(v interface{}) float64 {
+		switch v := v.(type) {
+		case float64:
+			return v
+		case string:
+			return stringToNumber(v)
+		}
+		if asBool(t, v) {
+			return 1
+		}
+		return 0
+	}
+	return cmpNumberNumberF(op, num(m), num(n))
 }
 
 // eqFunc is an `=` operator.
